@@ -22,9 +22,10 @@ fails iff the arguments are refused or some group cannot be decided.  `keep` car
 RuntimeErrors of the ROI search, a stored graphic type outside the enumeration it is read into (`.value`), a reference
 / source image item without ReferencedSOPSequence or a SCOORD region without ContentSequence where they are read
 (`.attribute`), and the conversion of a group about to be returned (`.attribute`; see `malformed_item_arms`,
-`sound_group_has_no_malformed_arm`).  Scope: the conversion is modelled only for the ReferencedSOPSequence of IMAGE /
-COMPOSITE items; items lacking another attribute of their value type, or carrying a value / relationship type outside
-its enumeration, are outside the model (C13 / C14 own the per-item validation). -/
+`sound_group_has_no_malformed_arm`).  Scope: group containers have a ContentSequence and a present ReferencedSOPSequence
+is not empty; the conversion is modelled only for the ReferencedSOPSequence of IMAGE / COMPOSITE items and the GraphicType
+of SCOORD / SCOORD3D items; items lacking another attribute of their value type, or carrying a value / relationship type
+outside its enumeration, are outside the model (C13 / C14 own the per-item validation). -/
 theorem query_is_document_order_filter (k : Kind) (gs : List Group) (f : Filters) (l : List Nat)
     (h : query k gs f = .ok l) :
     l.Pairwise (· < ·) ∧ (∀ j, j ∈ l ↔ ∃ g, gs[j]? = some g ∧ keep k g f = .ok true) ∧
